@@ -40,7 +40,7 @@ var c20Derived = map[string]bool{c20Medians: true, c20Strat: true}
 
 func init() {
 	register("C20", "other", "T7 Pairing (dirty flag), T4 GuardedBy, T6 WhoMayWrite, T2 Dominates (loop exit), AST provenance of index roles, T15 ConstRelation (go/constant), normalised comparators, polynomial normal form for Matrix.Row",
-		"Decides the shape the indexer's medians and metrics depend on. Dirty flag: every store into a source field of QuorumIndexer (globalMatrix, selfParentSeqs, validators, dagi, diffMetricFn; directly, through Matrix.Row, through a local alias or copy()) is followed by dirty = true on every path to return; the derived fields globalMedianSeqs and searchStrategy are written only by recacheState; every read of them elsewhere is reached only after recacheState ran (directly, or inside a helper method called on the same receiver whose every path to return runs recacheState or takes the dirty == false edge and does not dirty the state afterwards — an extracted `if h.dirty { h.recacheState() }`) or over the dirty == false edge, also after any dirtying statement of the same function; dirty is cleared only in recacheState, as its last effect, after the complete loop that stores a median for every validator index 0..validators.Len()-1 and after searchStrategy was replaced by a MetricStrategy over a fresh MetricFnCache of the indexer's own GetMetricOf; the constructor starts dirty. Index roles: ProcessEvent writes globalMatrix.Row(x)[y] = seqOf(vecClock.Get(x)) for every validator index x (full counted loop), with vecClock = dagi.GetMergedHighestBefore(event.ID()) and y = validators.GetIdx(event.Creator()), and selfParentSeqs[x] gets the same value only under the selfEvent parameter; Matrix.Row(i) is buffer[i*columns:(i+1)*columns] (polynomial identity) and NewMatrix sizes the buffer rows*cols; recacheState pairs Row(subject)[i] with GetWeightByIdx(i) for the same observer i over all observers, sorts by seq strictly descending, takes wmedian.Of(pairs, validators.Quorum()) of the freshly filled and sorted slice and stores its seq at globalMedianSeqs[subject]; wmedian.Of visits its values in slice order from the first (range, or for i := 0; i < len(values); i++), accumulates the current element's Weight() from zero and returns the current element exactly on the first accumulated weight >= stop, nothing else returns; the per-subject median computation, the store of the median, the strategy replacement and dirty = true may each live in a private helper method called on the same receiver (the helper's parameter is bound to the caller's loop index; a helper counts as the store/assignment it performs on every path, and derived state may be written by a helper only if all its call sites are in recacheState); weightedSeq.Weight returns its weight field. seqOf returns Seq() unless IsForkDetected(), then the constant MaxUint32/2-1 = 2^31-2, and go/constant confirms sentinel >= K-1 where K is the constant of basiccheck's `Seq >= K` rejection (K = MaxInt32-1, so admissible Seq <= 2^31-3 < sentinel). GetMetricOf sums (from zero, += over the full validator loop) diffMetricFn called with, under the parameter names of DiffMetricFn, median = globalMedianSeqs[i], current = selfParentSeqs[i], update = seqOf(dagi.GetMergedHighestBefore(id).Get(i)), validatorIdx = i. NOT decided: numeric equality of the stored median with the definition over all inputs (it follows from the decided shape by the descending-prefix argument, which is not machine-checked), overflow of the Metric sum, staleness of a SearchStrategy value kept by a caller across ProcessEvent, mutation of the slices handed out by GetGlobalMatrix/GetSelfParentSeqs/GetGlobalMedianSeqs by callers, and that vecClock sequences of processed events respect the basiccheck bound (assumed).",
+		"Decides the shape the indexer's medians and metrics depend on. Dirty flag: every store into a source field of QuorumIndexer (globalMatrix, selfParentSeqs, validators, dagi, diffMetricFn; directly, through Matrix.Row, through a local alias or copy()) is followed by dirty = true on every path to return; the derived fields globalMedianSeqs and searchStrategy are written only by recacheState; every read of them elsewhere is reached only after recacheState ran (directly, or inside a helper method called on the same receiver whose every path to return runs recacheState or takes the dirty == false edge and does not dirty the state afterwards — an extracted `if h.dirty { h.recacheState() }`) or over the dirty == false edge, also after any dirtying statement of the same function; dirty is cleared only in recacheState, as its last effect, after the complete loop that stores a median for every validator index 0..validators.Len()-1 and after searchStrategy was replaced by a MetricStrategy over a fresh MetricFnCache of the indexer's own GetMetricOf; the constructor starts dirty. Index roles: ProcessEvent writes globalMatrix.Row(x)[y] = seqOf(vecClock.Get(x)) for every validator index x (full counted loop), with vecClock = dagi.GetMergedHighestBefore(event.ID()) and y = validators.GetIdx(event.Creator()), and selfParentSeqs[x] gets the same value only under the selfEvent parameter; Matrix.Row(i) is buffer[i*columns:(i+1)*columns] (polynomial identity) and NewMatrix sizes the buffer rows*cols; recacheState pairs Row(subject)[i] with GetWeightByIdx(i) for the same observer i over all observers, sorts by seq strictly descending, takes wmedian.Of(pairs, validators.Quorum()) of the freshly filled and sorted slice and stores its seq at globalMedianSeqs[subject]; wmedian.Of visits its values in slice order from the first (range, or for i := 0; i < len(values); i++), accumulates the current element's Weight() from zero and returns the current element exactly on the first accumulated weight >= stop, nothing else returns; the per-subject median computation, the store of the median, the strategy replacement and dirty = true may each live in a private helper method called on the same receiver (provenance is decided on the inlined view: a helper's parameters stand for the caller's argument expressions, so the helper may be handed the loop index, the subject's row globalMatrix.Row(subject) or validators.Len() read once into a local, and the comparison function may be a literal in place or one returned by a constructor that is handed the slice and only indexes it; neither recacheState nor the helper writes globalMatrix or validators; a helper counts as the store/assignment it performs on every path, and derived state may be written by a helper only if all its call sites are in recacheState); weightedSeq.Weight returns its weight field. seqOf returns Seq() unless IsForkDetected(), then the constant MaxUint32/2-1 = 2^31-2, and go/constant confirms sentinel >= K-1 where K is the constant of basiccheck's `Seq >= K` rejection (K = MaxInt32-1, so admissible Seq <= 2^31-3 < sentinel). GetMetricOf sums (from zero, += over the full validator loop) diffMetricFn called with, under the parameter names of DiffMetricFn, median = globalMedianSeqs[i], current = selfParentSeqs[i], update = seqOf(dagi.GetMergedHighestBefore(id).Get(i)), validatorIdx = i. NOT decided: numeric equality of the stored median with the definition over all inputs (it follows from the decided shape by the descending-prefix argument, which is not machine-checked), overflow of the Metric sum, staleness of a SearchStrategy value kept by a caller across ProcessEvent, mutation of the slices handed out by GetGlobalMatrix/GetSelfParentSeqs/GetGlobalMedianSeqs by callers, and that vecClock sequences of processed events respect the basiccheck bound (assumed).",
 		[]string{"only events accepted by eventcheck/basiccheck reach ProcessEvent (C13 bound on Seq)", "sort.Slice sorts by the given less function; pos.Validators.Quorum/GetIdx/GetWeightByIdx/Len are as documented (C11/C12)",
 			"callers do not write through the slices returned by the indexer's getters", "the indexer is used from one goroutine"},
 		runC20)
@@ -440,7 +440,7 @@ func c20DirtyClause(c *core.Ctx) {
 			}
 		}
 	}
-	nStores := 0
+	stored := map[string]bool{} // source fields that are stored into somewhere (vacuity guard: one per role)
 	helpers := c20RecacheHelpers(c.P)
 	for _, f := range c20PkgFuncs(c.P) {
 		who := short(f.Name)
@@ -468,7 +468,7 @@ func c20DirtyClause(c *core.Ctx) {
 				c.Check(f.Name == c20Recache || helpers[f], who+"|writes "+short(s.Field), "T6 WhoMayWrite", s.Pos, "derived state is written by recacheState (or by a private helper that only recacheState calls)", "derived state "+short(s.Field)+" is written outside recacheState: it no longer equals the function of the matrix that readers expect")
 				continue
 			}
-			nStores++
+			stored[s.Field] = true
 			ok, wit := f.MustPassAfter(s.Pt, set)
 			if !ok && len(set) > 0 {
 				// dirty = true before the store, and not cleared in between
@@ -487,7 +487,13 @@ func c20DirtyClause(c *core.Ctx) {
 				"a store into "+short(s.Field)+" can return without dirty = true: medians and cached metrics computed from the old contents keep being served; path "+f.DescribePath(wit))
 		}
 	}
-	c.ExpectAtLeast("stores into source state", nStores, 2)
+	nRoles := 0
+	for _, fld := range []string{c20Matrix, c20Self} {
+		if stored[fld] {
+			nRoles++
+		}
+	}
+	c.ExpectAtLeast("source fields stored into (observation matrix, self-parent seqs)", nRoles, 2)
 	// the constructor starts dirty (searchStrategy is nil and medians are zero until the first recache)
 	nLit := 0
 	for _, f := range c20PkgFuncs(c.P) {
@@ -518,7 +524,7 @@ func c20DirtyClause(c *core.Ctx) {
 }
 
 func c20Reads(c *core.Ctx) {
-	n := 0
+	readFields := map[string]bool{}
 	helpers := c20RecacheHelpers(c.P)
 	for _, f := range c20PkgFuncs(c.P) {
 		if f.Name == c20Recache || helpers[f] {
@@ -539,7 +545,7 @@ func c20Reads(c *core.Ctx) {
 		// on each of its paths (an extracted `if h.dirty { h.recacheState() }`), or over the dirty == false edge;
 		// a private helper that reads derived state may rely on each of its call sites being fresh (c20CleanAt)
 		for _, sel := range reads {
-			n++
+			readFields[fieldNameOf(f, sel)] = true
 			fld := short(fieldNameOf(f, sel))
 			pt, ok := f.PointOf(sel)
 			if !ok {
@@ -562,7 +568,8 @@ func c20Reads(c *core.Ctx) {
 				"the read is reached only after recacheState() ran or over the dirty == false edge", fld+" can be read while dirty (no recacheState on the path): values computed from an older matrix are returned; path "+where)
 		}
 	}
-	c.ExpectAtLeast("reads of derived state outside recacheState", n, 3)
+	// vacuity guard: each derived field (medians, search strategy) is read somewhere outside recacheState
+	c.ExpectAtLeast("derived fields read outside recacheState", len(readFields), 2)
 }
 
 // ---------------------------------------------------------------------------
@@ -932,30 +939,30 @@ func c20Median(c *core.Ctx) {
 	of := ofs[0]
 	pairs := varOf(f, of.Call.Args[0])
 	c.Need(pairs != nil, "wmedian.Of is applied to a local slice")
-	var subj, rctr *types.Var
+	// fr is the activation of f in the inlined view of recacheState; rctr the counter of recacheState's full
+	// loop over validators: an expression of f is "the subject" when it resolves to rctr through the frames
+	// (the loop counter itself, a helper parameter bound to it, a conversion or single-definition local of it)
+	root := &c21Frame{F: rf}
+	fr := root
+	var rctr *types.Var
 	var region ast.Node
 	if via == nil {
 		outer, _ := enclosingLoop(f, of.Pos()).(*ast.ForStmt)
 		ctr, full := c20FullLoop(f, outer, func(e ast.Expr) bool { return c20IsValLen(f, e) })
 		c.Need(full && ctr != nil, "wmedian.Of is called inside the full loop over validators")
-		subj, rctr, region = ctr, ctr, outer.Body
+		rctr, region = ctr, outer.Body
 	} else {
 		outer, _ := enclosingLoop(rf, via.Pos()).(*ast.ForStmt)
 		ctr, full := c20FullLoop(rf, outer, func(e ast.Expr) bool { return c20IsValLen(rf, e) })
 		c.Need(full && ctr != nil, "the median helper is called inside the full loop over validators")
-		k := -1
-		for i, a := range via.Call.Args {
-			if c20VarAt(rf, a) == ctr {
-				c.Need(k < 0, "the median helper receives the loop's validator index once")
-				k = i
-			}
-		}
-		c.Need(k >= 0, "the median helper receives the loop's validator index")
-		subj = f.Param(k)
-		c.Need(subj != nil && c20ParamIndex(f, subj) == k, "the median helper does not modify its subject parameter")
 		c.Need(!f.CanReach(of.Pt, of.Pt), "the median helper computes one median per call")
+		fr = c21Enter(root, via, f)
 		rctr, region = ctr, f.Body
 	}
+	isSubj := func(e ast.Expr) bool { return c20FrVarAt(fr, e, rctr) }
+	// what a helper is handed was evaluated when it was entered: the matrix and the validators are not
+	// replaced or written while the medians are computed
+	c.Check(c20NoStoresInto(c20Matrix, rf, f) && c20NoStoresInto(c20Vals, rf, f), "observations are not written while the medians are computed", "T6 WhoMayWrite", rf.Pos(), "neither recacheState nor the median helper stores into globalMatrix or validators", "recacheState (or its median helper) writes the observation matrix or the validators while it computes the medians: the medians are not those of the observations the readers see")
 	// stop = validators.Quorum()
 	okStop := false
 	if q := isCallTo(f, c19Resolve(f, of.Call.Args[1], of.Pt), "inter/pos.Validators.Quorum"); q != nil {
@@ -1003,7 +1010,7 @@ func c20Median(c *core.Ctx) {
 			switch {
 			case g == f:
 				// globalMedianSeqs[subject] = Of(..).(weightedSeq).seq, where the median is computed
-				okStore = seqOfOf(a.RHS, a.Pt) && c20VarAt(g, ix.Index) == subj
+				okStore = seqOfOf(a.RHS, a.Pt) && isSubj(ix.Index)
 			default:
 				// recacheState stores what the helper returned for the loop's validator
 				call, isCall := c19Resolve(g, a.RHS, a.Pt).(*ast.CallExpr)
@@ -1021,7 +1028,7 @@ func c20Median(c *core.Ctx) {
 	pDef, single := c19SingleDef(f, pairs)
 	okFresh := false
 	if single {
-		if mk := isCallTo(f, pDef.RHS, "builtin.make"); mk != nil && len(mk.Args) >= 2 && c20IsValLen(f, mk.Args[1]) && (len(mk.Args) == 2) {
+		if mk := isCallTo(f, pDef.RHS, "builtin.make"); mk != nil && len(mk.Args) >= 2 && c20FrValLen(fr, mk.Args[1]) && (len(mk.Args) == 2) {
 			okFresh, _ = precedesLocally(f, []core.Point{pDef.Pt}, of.Pt)
 			okFresh = okFresh && c19Within(region, pDef.Stmt.Pos())
 		}
@@ -1059,7 +1066,7 @@ func c20Median(c *core.Ctx) {
 			okLoop = n == 1 && !addr
 		}
 	} else if fs, isFor := fill.(*ast.ForStmt); isFor {
-		if ctr, full := c20FullLoop(f, fs, func(e ast.Expr) bool { return c20IsValLen(f, e) }); full && ctr != nil {
+		if ctr, full := c20FullLoop(f, fs, func(e ast.Expr) bool { return c20FrValLen(fr, e) }); full && ctr != nil {
 			obs, okLoop = ctr, okFresh
 		}
 	}
@@ -1072,10 +1079,12 @@ func c20Median(c *core.Ctx) {
 	if cl != nil {
 		if tv, ok := f.Info().Types[cl]; ok && c20IsNamed(c.P, tv.Type, c20WSeq) {
 			fl := c20StructLitFields(f, cl)
+			// seq = Row(subject)[observer]: the element is read in f (the observer is f's fill index); the row may be
+			// computed in place, held in a local, or handed to the helper by recacheState
 			if sx, ok := c19Resolve(f, fl["seq"], fillStore.Pt).(*ast.IndexExpr); fl["seq"] != nil && ok {
-				if row := isCallTo(f, c19Resolve(f, sx.X, fillStore.Pt), c20Row); row != nil && len(row.Args) == 1 {
-					if sel, ok := ast.Unparen(row.Fun).(*ast.SelectorExpr); ok && c20RecvField(f, sel.X, c20Matrix) {
-						okSeq = c20VarAt(f, row.Args[0]) == subj && c20VarAt(f, sx.Index) == obs
+				if rfr, row := c20FrCall(fr, sx.X, c20Row); row != nil && len(row.Args) == 1 {
+					if sel, ok := ast.Unparen(row.Fun).(*ast.SelectorExpr); ok && c20FrRootField(rfr, sel.X, c20Matrix) {
+						okSeq = c20FrVarAt(rfr, row.Args[0], rctr) && c20VarAt(f, sx.Index) == obs
 					}
 				}
 			}
@@ -1106,15 +1115,19 @@ func c20Median(c *core.Ctx) {
 		o2 = !early
 	}
 	c.Check(o1 && o2, "fill, then sort, then median", "T2 Dominates (loop exit)", srt.Pos(), "the complete fill loop precedes the sort, which precedes wmedian.Of, in each subject iteration", "the median is taken from a list that is not completely filled and sorted")
+	// the comparison function: a literal written in place (or held by a local), or built by a constructor that
+	// is handed the slice (bySeqDesc(pairs)) and returns a literal reading its parameter
+	lessOf := c20LessOf(fr, srt.Call.Args[1], pairs)
+	c.Need(lessOf != nil && lessOf.Lit.Param(0) != nil && lessOf.Lit.Param(1) != nil, "sort.Slice gets a function literal with named parameters (in place, or returned by a constructor)")
+	less := lessOf.Lit
 	c19Audit(c, f, pairs, "observer list", "T6 use audit", func(k string) bool {
 		switch k {
 		case "def", "range", "store", "len", "closure", "arg:sort.Slice:0", "arg:sort.SliceStable:0", "arg:utils/wmedian.Of:0":
 			return true
 		}
-		return false
+		// handed to the constructor of the comparison function, which only indexes it inside the literal
+		return lessOf.Kind != "" && k == lessOf.Kind && lessOf.readsOnly()
 	}, nil)
-	less := litArg(f, srt.Call, 1)
-	c.Need(less != nil && less.Param(0) != nil && less.Param(1) != nil, "sort.Slice gets a function literal with named parameters")
 	elem := func(e ast.Expr, use core.Point) *types.Var { // e resolves to pairs[p].(weightedSeq).seq -> p
 		sel, ok := c19Resolve(less, e, use).(*ast.SelectorExpr)
 		if !ok || fieldNameOf(less, sel) != c20WSeq+".seq" {
@@ -1125,7 +1138,7 @@ func c20Median(c *core.Ctx) {
 			return nil
 		}
 		ix, ok := c19Resolve(less, ta.X, use).(*ast.IndexExpr)
-		if !ok || varOf(less, ix.X) != pairs {
+		if !ok || !c20FrIsVar(lessOf.Fr, ix.X, pairs) {
 			return nil
 		}
 		return varOf(less, ix.Index)
@@ -1142,10 +1155,8 @@ func c20Median(c *core.Ctx) {
 		}
 		okLess = okLess && ok
 	}
-	for _, u := range c19UsesOf(less, pairs) {
-		if u.Kind != "index" {
-			okLess = false
-		}
+	if !lessOf.readsOnly() {
+		okLess = false
 	}
 	c.Check(okLess, "entries sorted by seq, strictly descending", "normalised comparator", srt.Pos(), "less(i,j) is pairs[i].seq > pairs[j].seq", "the observer list is not sorted by descending sequence: the prefix reaching quorum no longer consists of the highest observations, so the result is not the largest s observed by a quorum")
 	// weightedSeq.Weight returns its weight
